@@ -288,7 +288,74 @@ func (s *State) assume(t string) {
 	if t == "true" || t == "" {
 		return
 	}
+	// conjunctions are recorded fact by fact: literal facts decide later branches syntactically
+	// (Exec.fork) and survive hypothesis slicing on their own
+	if strings.HasPrefix(t, "(and ") && len(t) < 200000 {
+		if n := parseSx(t); n != nil && n.kids != nil && n.head() == "and" {
+			for _, k := range n.kids[1:] {
+				s.assume(k.String())
+			}
+			return
+		}
+	}
 	s.pc = append(s.pc, t)
+}
+
+// decided reports whether the path condition contains cond (1) or its negation (-1) literally.
+func (s *State) decided(cond string) int {
+	neg := negLit(cond)
+	alts := []string{cond}
+	nalts := []string{neg}
+	if f := flipEq(cond); f != "" {
+		alts = append(alts, f)
+		nalts = append(nalts, negLit(f))
+	}
+	if f := flipEq(neg); f != "" {
+		nalts = append(nalts, f)
+		alts = append(alts, negLit(f))
+	}
+	for i := len(s.pc) - 1; i >= 0; i-- {
+		f := s.pc[i]
+		if len(f) > 400 {
+			continue
+		}
+		for _, a := range alts {
+			if f == a {
+				return 1
+			}
+		}
+		for _, a := range nalts {
+			if f == a {
+				return -1
+			}
+		}
+	}
+	return 0
+}
+
+func negLit(c string) string {
+	if strings.HasPrefix(c, "(not ") && strings.HasSuffix(c, ")") {
+		return c[5 : len(c)-1]
+	}
+	return "(not " + c + ")"
+}
+
+// flipEq: "(= a b)" -> "(= b a)" (also under one negation); "" if c is not an equality.
+func flipEq(c string) string {
+	if strings.HasPrefix(c, "(not ") {
+		if f := flipEq(c[5 : len(c)-1]); f != "" {
+			return "(not " + f + ")"
+		}
+		return ""
+	}
+	if !strings.HasPrefix(c, "(= ") {
+		return ""
+	}
+	n := parseSx(c)
+	if n == nil || len(n.kids) != 3 {
+		return ""
+	}
+	return "(= " + n.kids[2].String() + " " + n.kids[1].String() + ")"
 }
 
 // Heap maps heap keys to their current SMT array term.  Keys never touched
